@@ -1162,9 +1162,12 @@ class TokFrag(list):
     """one '.'-fragment of a TokStr: a list of symbols (so that the real _tokenize_selfies iterates it through its
     `list` branch) that also answers the substring test `"text" in fragment` the way the fragment's string would"""
 
+    def _items(self):
+        return list(list.__iter__(self))
+
     def __contains__(self, sub):
         if isinstance(sub, str) and "][" not in sub:
-            for t in list.__iter__(self):
+            for t in self._items():
                 if isinstance(t, str):
                     if sub in t:
                         return True
@@ -1172,11 +1175,18 @@ class TokFrag(list):
                     return True
             return False
         if isinstance(sub, str):
-            return sub in "".join(str(t) for t in list.__iter__(self))
+            return sub in "".join(str(t) for t in self._items())
         return list.__contains__(self, sub)
 
     def __str__(self):
-        return "".join(str(t) for t in list.__iter__(self))
+        return "".join(str(t) for t in self._items())
+
+    def count(self, sub):
+        """occurrences of a substring in the fragment's text (never across symbols: they are bracketed)"""
+        tot = 0
+        for t in self._items():
+            tot = tot + (t.count(sub) if isinstance(t, str) else t.pointwise(lambda v: v.count(sub)))
+        return tot
 
 
 class TokStr:
